@@ -289,6 +289,11 @@ Theorem C12_square_det_zero_exact : forall sym traceless cplx dim lo hi a M tr,
 Proof. exact sq_attempt_det_zero_exact. Qed.
 Print Assumptions C12_square_det_zero_exact.
 
+(* the determinant the case checker evaluates (partial results in lowest terms) is the determinant *)
+Theorem C12_reduced_determinant : forall n A, ceq (mdetr n A) (mdet n A).
+Proof. exact mdetr_eq. Qed.
+Print Assumptions C12_reduced_determinant.
+
 (* ---------------------------------------------------------------------------------------------- *)
 (* non-vacuity                                                                                    *)
 (* ---------------------------------------------------------------------------------------------- *)
